@@ -126,6 +126,11 @@ def write_graph(g):
     os.makedirs(os.path.dirname(path), exist_ok=True)
     if not os.path.exists(path) or open(path, encoding="utf-8").read() != text:
         open(path, "w", encoding="utf-8").write(text)
+        for ext in (".vo", ".vos", ".vok", ".glob"):      # never trust a same-second timestamp
+            try:
+                os.remove(path[:-2] + ext)
+            except OSError:
+                pass
 
 
 def closure_order(g, seq):
@@ -187,6 +192,8 @@ def run(chk):
     g = module_graph()
     write_graph(g)
     proved = chk.prove("Props.C17", THEOREMS, ["theories/Props/C17.vo"])
+    if not proved:
+        chk.notes.append("proof side: " + str(getattr(chk, "proof_failure", "?"))[:1500])
     chk.trusted += [
         "model Session/Resolver.v: hand port of numbat/src/resolver.rs (inlining_pass, imported_modules)",
         "translator tools/props/c17.py:parse_module (line regex over %d .nbt files) -> Gen/ModuleGraph.v; its name "
